@@ -802,6 +802,83 @@ func runC05(c *Ctx) {
 				}
 			}
 			lowOK = okDefs && len(prevDefs) > 0 && len(uses) > 0 && !leak
+			if !lowOK && len(uses) > 0 {
+				// the other way round: low starts as the previous predecessor and is
+				// replaced by self where it turned out nil - every definition is one of the
+				// two, self is assigned only where low (or the previous predecessor) is known
+				// nil, and no use is reachable from a "previous predecessor" definition
+				// without passing the edge on which low is known non-nil
+				isLowNil := func(e ast.Expr, truth bool) (isNil, ok bool) {
+					be, isBin := ast.Unparen(e).(*ast.BinaryExpr)
+					if !isBin || (be.Op != token.EQL && be.Op != token.NEQ) {
+						return false, false
+					}
+					x, y := be.X, be.Y
+					if isNilIdent(up.Info, x) {
+						x, y = y, x
+					}
+					if !isNilIdent(up.Info, y) || up.varOf(x) != lowVar {
+						return false, false
+					}
+					return (be.Op == token.EQL) == truth, true
+				}
+				alt := true
+				nPrev, nSelf := 0, 0
+				for _, d := range up.defNodes(lowVar) {
+					var rhs ast.Expr
+					switch x := d.(type) {
+					case *ast.AssignStmt:
+						for i, l := range x.Lhs {
+							if up.varOf(l) == lowVar && i < len(x.Rhs) {
+								rhs = x.Rhs[i]
+							}
+						}
+					case *ast.ValueSpec:
+						for i, nm := range x.Names {
+							if up.Info.Defs[nm] == types.Object(lowVar) && i < len(x.Values) {
+								rhs = x.Values[i]
+							}
+						}
+					}
+					if rhs == nil {
+						alt = false
+						continue
+					}
+					switch up.Prov(rhs) {
+					case "param#1":
+						nPrev++
+					case "recv":
+						nSelf++
+						if !up.FactsAt(d).Cmp(func(e, tag ast.Expr, truth bool, fa *Fact) bool {
+							if tag != nil {
+								return false
+							}
+							if isNil, ok := isLowNil(e, truth); ok && isNil {
+								return true
+							}
+							isNil, ok := isPrevNil(e, truth)
+							return ok && isNil
+						}) {
+							alt = false
+						}
+					default:
+						alt = false
+					}
+				}
+				for _, u := range uses {
+					bad, decided := up.CutFromDefs(u, lowVar, func(p string) bool { return p == "param#1" }, func(at atom) bool {
+						if at.tag != nil {
+							return false
+						}
+						isNil, ok := isLowNil(at.e, at.truth)
+						return ok && !isNil
+					})
+					if !decided || bad != nil {
+						alt = false
+					}
+				}
+				lowOK = alt && nPrev > 0 && nSelf > 0
+			}
 		}
 	}
 	c.Ob("range-args", "transferKeysUpward#low-defaults-to-self", up.Body.Pos(), lowOK, "low is the previous predecessor, or self when there is none")
